@@ -140,6 +140,9 @@ class SimFS:
     def open(self, file: Any, mode: str = "r", buffering: int = -1, encoding: Any = None, errors: Any = None, *a: Any, **k: Any) -> SimFile:
         path = str(file)
         text = "b" not in mode
+        if encoding in (None, "locale"):
+            # the simulated process runs in a UTF-8 locale (pathlib passes io.text_encoding()'s "locale" on)
+            encoding = "utf-8"
         self.opened.append(f"{path}:{mode}")
         if self.on_event is not None:
             self.on_event("open", path, mode)
